@@ -67,8 +67,10 @@ def history(rng, nv, length):
             emit(["not", P()])
         elif k < 0.39:
             emit(["ite", P(), P(), P()])
-        elif k < 0.43:
+        elif k < 0.41:
             emit(["tern", partial_table3(rng, tuple(rng.random() < 0.5 for _ in range(8))), P(), P(), P()])
+        elif k < 0.43:
+            emit(["ftern", partial_table3(rng, tuple(rng.random() < 0.5 for _ in range(8))), ov(), ov(), ov(), ov(), P(), P(), P()])
         elif k < 0.49:
             emit([rng.choice(["exists", "for_all"]), P(), vs()])
         elif k < 0.53 and nv:
@@ -165,6 +167,39 @@ def programs(rng, tier):
             P.add(["tern", partial_table3(rng, tuple(rng.random() < 0.5 for _ in range(8))), bdd_sx(a), bdd_sx(b), bdd_sx(a)])
         else:
             P.add(["bin_exists", partial_table(rng, rng.choice(CONNS)), bdd_sx(a), bdd_sx(b), ["L"] + [str(x) for x in range(nv) if rng.random() < 0.4]])
+    # dedicated families for producers whose defects need particular shapes
+    for _ in range(500 if tier == "quick" else 12000):
+        nv = rng.choice([4, 5, 6, 7, 8])
+        a, b, c = (random_bdd(rng, nv, max_support=min(nv, 6)) for _ in range(3))
+        k = rng.random()
+        if k < 0.45:
+            # restriction on two or more variables, in the middle of the ordering
+            xs = rng.sample(range(nv), rng.randrange(2, min(nv, 4) + 1))
+            P.add(["restrict", bdd_sx(a), ["L"] + [["P", str(x), rng.choice("TF")] for x in xs]])
+        elif k < 0.8:
+            fl = [optvar(rand_optvar(rng, nv, 0.4)) for _ in range(3)] + [optvar(rand_optvar(rng, nv, 0.1))]
+            P.add(["ftern", partial_table3(rng, tuple(rng.random() < 0.5 for _ in range(8)))] + fl + [bdd_sx(a), bdd_sx(b), bdd_sx(c)])
+        else:
+            fl = [optvar(rand_optvar(rng, nv, 0.4)) for _ in range(2)] + [optvar(rand_optvar(rng, nv, 0.1))]
+            P.add(["fbin", partial_table(rng, rng.choice(CONNS))] + fl + [bdd_sx(a), bdd_sx(b)])
+    # transfer between variable sets: shared / missing / reordered names
+    alphabet = ["a", "b", "c", "d", "e", "f", "z"]
+    for _ in range(300 if tier == "quick" else 8000):
+        nv = rng.choice([2, 3, 4, 5])
+        src = rng.sample(alphabet, nv)
+        a = random_bdd(rng, nv, max_support=nv)
+        k = rng.random()
+        dst = list(src)
+        if k < 0.3:
+            i = rng.randrange(nv - 1)
+            dst[i], dst[i + 1] = dst[i + 1], dst[i]
+        elif k < 0.5:
+            dst[rng.randrange(nv)] = "q"
+        elif k < 0.7:
+            dst.insert(rng.randrange(nv + 1), "q")
+        elif k < 0.8:
+            rng.shuffle(dst)
+        P.add(["transfer", bdd_sx(a), ["L"] + [hexs(n) for n in src], ["L"] + [hexs(n) for n in dst]])
     return progs + P.progs
 
 
